@@ -141,11 +141,17 @@ Theorem T12_nsfixup_fallback_refuted :
 Proof. exact fallback_refuted. Qed.
 Print Assumptions T12_nsfixup_fallback_refuted.
 
-(** known finding F54 on the faithful model: two prefixes on one URI, both rebound: removeKey throws *)
-Theorem T12_nsscope_rebind_both_throws :
-  ns_run [Push; Bind 1 30; Bind 2 30; Push; Bind 1 10; Bind 2 20] [] = None.
+(** after fixes/C12-normalizer-scope.patch addOrChangeBinding cannot throw; as found it did (F54) *)
+Theorem T12_nsscope_total : forall ops st, exists st', ns_run ops st = Some st'.
+Proof. exact ns_run_total. Qed.
+Print Assumptions T12_nsscope_total.
+
+Theorem T12_nsscope_rebind_both_old_refuted :
+  ns_run_old [Push; Bind 1 30; Bind 2 30; Push; Bind 1 10; Bind 2 20] [] = None /\
+  exists st, ns_run [Push; Bind 1 30; Bind 2 30; Push; Bind 1 10; Bind 2 20] [] = Some st /\
+             get_uri st 1 = Some 10 /\ get_uri st 2 = Some 20 /\ get_prefix st 30 = None.
 Proof. exact rebind_both_throws. Qed.
-Print Assumptions T12_nsscope_rebind_both_throws.
+Print Assumptions T12_nsscope_rebind_both_old_refuted.
 
 (** the behaviour as found, refuted on the model of the unrepaired code *)
 Theorem T12_cdata_split_old_refuted :
